@@ -195,3 +195,24 @@ register(
     "arithmetic, range order), panics inside dependencies, stack exhaustion, wedging and scan isolation are not decided.",
     [r7.r7_slicing, r7.r7_u32_overflow, r7.r7_unwrap],
 )
+
+from . import r10
+
+register(
+    "C13",
+    "Structural clauses of discovery: (R10a) ignore rules inspect only the path relative to the walk root (strip_prefix "
+    "of the value given to WalkDir::new) and the directory filter is depth-aware; (R10b) the walk's file-name predicate "
+    "and the import-scan seed predicate use the same literal tests; (R10f) the parallel phase uses a "
+    "non-short-circuiting consumer. That exactly pytest's file set is indexed for every tree is not decided.",
+    [r10.r10a_relocation, r10.r10b_filename_predicates, r10.r10f_no_short_circuit],
+)
+
+register(
+    "C14",
+    "Structural clauses of import/plugin discovery: (R10c) all FixtureDefinition constructors classify alike; (R10d) a "
+    "plugin mark precedes the analysis it can affect or enqueues a re-analysis; (R10e) every import-graph walker "
+    "follows both imports and pytest_plugins; (R10g) plugin propagation does not test a stale snapshot of the map it "
+    "extends; (R1d) import recursion is guarded by a visited set. Reachability closure on arbitrary graphs and venv "
+    "layouts are not decided.",
+    [r10.r10c_constructors_agree, r10.r10d_mark_before_analyse, r10.r10e_walkers, r10.r10g_no_stale_snapshot, r1.r1d_recursion],
+)
